@@ -119,6 +119,8 @@ class Calendar:
         self.DAYS_IN_YEAR = sum(self.DAYS_IN_MONTHS)
         self.ROUGH_DAYS_IN_YEAR = self.DAYS_IN_YEAR
         self.DAYS_IN_YEAR_LEAP = sum(self.DAYS_IN_MONTHS_LEAP)
+        # Most weeks an ISO week year of this calendar can have (ceiling).
+        self.MAX_WEEKS_IN_YEAR = -(-self.DAYS_IN_YEAR_LEAP // self.DAYS_IN_WEEK)
         self.MAX_DAYS_IN_MONTH = max(self.DAYS_IN_MONTHS)
         self.HOURS_IN_YEAR = self.DAYS_IN_YEAR * self.HOURS_IN_DAY
         self.MINUTES_IN_YEAR = self.DAYS_IN_YEAR * self.MINUTES_IN_DAY
